@@ -140,7 +140,7 @@ def finish(pid, P, props, tier, seed, results, known, t0, warnings, scratch_root
                 "rewrites_applied": r.get("rewrites"), "vacuity": r.get("vacuity"),
                 "functions": r.get("functions"),
                 "obligation_ids": [o["id"] for o in r.get("obligations", [])],
-                "bounded": r.get("bounded"),
+                "bounded": r.get("bounded"), "cvc5_crosscheck": r.get("cvc5"),
             } for r in results],
             "functions_under_contract": sorted(set("%s::%s" % (r["unit"], f["function"]) for r in results for f in r.get("functions", []) if f.get("mode") in ("exec", "kani", "skel"))),
             "known_findings_matched": [k.get("obligation") for k, _ in known_hits],
